@@ -252,3 +252,32 @@ pub fn c01n_twin_big_endian() {
 	v.encode_to(&mut real);
 	assert!(real.d[0] == (v >> 8) as u8);
 }
+
+/// the largest representable element count, 2^32 - 1, gets the five-byte prefix 03 ff ff ff ff (a slice of that many unit values
+/// costs no memory). Assert-and-cut: the sink checks the first five bytes and ends the path there -- iterating the 2^32-1
+/// unit elements afterwards (which write nothing) is not executed.
+pub struct CutAfterPrefix { d: [u8; 5], n: usize }
+impl parity_scale_codec::Output for CutAfterPrefix {
+	fn write(&mut self, b: &[u8]) {
+		let mut i = 0;
+		while i < b.len() {
+			self.d[self.n] = b[i];
+			self.n += 1;
+			i += 1;
+			if self.n == 5 {
+				assert!(self.d[0] == 0x03 && self.d[1] == 0xff && self.d[2] == 0xff && self.d[3] == 0xff && self.d[4] == 0xff, "count 2^32-1: prefix is not 03 ff ff ff ff");
+				kani::cover!(true, "reach: five prefix bytes written");
+				kani::assume(false);
+			}
+		}
+	}
+}
+#[kani::proof]
+#[kani::unwind(7)]
+pub fn c01q_count_u32_max_prefix() {
+	static UNITS: [(); u32::MAX as usize] = [(); u32::MAX as usize];
+	let s: &[()] = &UNITS[..];
+	let mut o = CutAfterPrefix { d: [0; 5], n: 0 };
+	s.encode_to(&mut o);
+	assert!(false, "the sequence of 2^32-1 elements was encoded without a complete five-byte prefix");
+}
